@@ -405,6 +405,41 @@ def settings_clone_rule(index, rep, rid, modules):
     return n
 
 
+def same_default_rule(index, rep, rid, modules):
+    """An option that four or more methods of one class take under the same name has one default: a single method
+    whose default differs from all its siblings' answers the same call differently when the argument is left out."""
+    import collections as _c
+    n = 0
+    for m in modules:
+        mod = index.module(m)
+        for k in [c for c in index.classes.values() if c.module is mod]:
+            table = _c.defaultdict(lambda: _c.defaultdict(list))
+            for meth in k.methods.values():
+                a = meth.node.args
+                pos = a.posonlyargs + a.args
+                d = dict(zip([x.arg for x in pos][len(pos) - len(a.defaults):], a.defaults))
+                d.update({x.arg: v for x, v in zip(a.kwonlyargs, a.kw_defaults) if v is not None})
+                for p_, v in d.items():
+                    table[p_][norm(v)].append((meth, v))
+            for p_, vals in sorted(table.items()):
+                tot = sum(len(v) for v in vals.values())
+                if tot < 4:
+                    continue
+                n += 1
+                if len(vals) < 2:
+                    continue
+                major = max(vals, key=lambda x: len(vals[x]))
+                if len(vals[major]) < tot - 1:
+                    continue        # no near-unanimous convention to hold the odd one to
+                for v, sites in vals.items():
+                    if v == major:
+                        continue
+                    for meth, dv in sites:
+                        rep.check(False, rid, meth.qualname, "default %s=%s differs from the %d sibling methods' %s" % (p_, v, len(vals[major]), major), fn_where(meth, dv), "",
+                                  "%s defaults `%s` to %s while the %d other methods of %s that take this option default it to %s: the same query gives a different answer through this one method when the argument is left out (a look-up that ignores the namespace's own case setting, a matrix written normalised while every accessor returns raw distances)" % (meth.qualname, p_, v, len(vals[major]), k.name, major))
+    return n
+
+
 def save_restore_rule(rep, rid, fi):
     """`old = X.a; X.a = <new>; ...; X.a = old`: the temporary setting is undone on every normal path from where it was made."""
     cfg = cfg_of(fi)
